@@ -275,6 +275,11 @@ static void exec_plan(Sim *sim, const Plan &p, uint64_t hidden_seed, RunResult &
         Env &e = env();
         e.begin_run(hidden_seed, &r);
         e.mem.set_addr_policy(mix64(p.seed, hash_str("addr-policy")));
+        // fault "asynchronous signal": in 1 run of 128 every library call is hit by one simulated signal (not in the coroutine sims,
+        // whose tasks call the library directly)
+        if ((mix64(p.seed, hash_str("signal-fault")) & 0x7f) == 0 && p.sim != "fipsrace" && p.sim != "shared" && p.sim != "dispatch" && p.sim != "hashlong" && p.sim != "hashgiant" &&
+            p.sim != "hashendure" && p.sim != "streamhuge" && p.sim != "gcmhuge")
+                e.signal_faults = true;
         if (g_fips_build && p.sim != "fipsgate" && p.sim != "fipsrace")
                 fips_mark_self_tests_passed(p.sim == "shared" && (p.seed & 2)); // (half of the shared-state runs start with the self-tests not yet run)
         try {
